@@ -118,7 +118,7 @@ def generate(rng):
         elif k == "default_dtype":
             ops.append({"fault": "default_dtype", "dtype": rng.choice(["float32", "float64"])})
         else:
-            fn = rng.choice(GENS)
+            fn = rng.choice(GENS + ["generate_kou_jump", "generate_merton_jump"])
             gk = {"generate_brownian": "BrownianStock", "generate_geometric_brownian": "BrownianStock", "generate_cir": "CIRRate",
                   "generate_heston": "HestonStock", "generate_vasicek": "VasicekRate", "generate_merton_jump": "MertonJumpStock",
                   "generate_kou_jump": "KouJumpStock", "generate_rough_bergomi": "RoughBergomiStock",
@@ -132,6 +132,14 @@ def generate(rng):
                 gp["sigma_fn"] = "const:0.2"
             gp.pop("cost", None)
             ns = rng.choice([1, 2, 3, 5, 21])
+            if not half and rng.chance(0.08) and fn not in ("generate_rough_bergomi",):
+                # a long horizon (decades of monthly steps): factors that over- and underflow separately must not meet as inf * 0
+                ns = rng.choice([150, 300])
+                gp["dt"] = rng.choice([1 / 12, 0.1])
+                if fn == "generate_kou_jump":
+                    gp.update({"jump_per_year": 68.0, "jump_up_prob": rng.choice([1.0, 1.0, 0.0]), "jump_mean_up": 0.1, "jump_mean_down": 0.1})
+                if fn == "generate_merton_jump":
+                    gp.update({"jump_per_year": 68.0, "jump_mean": rng.choice([0.1, -0.1]), "jump_std": 0.05})
             ops.append({"op": "generate", "fn": fn, "kind": gk, "params": gp, "n_paths": rng.choice([1, 2, 5, 40]), "n_steps": ns,
                         "init_state": (gen_init(rng, gk, gp) if rng.chance(0.5) and not half else None),
                         "init_form": rng.choice(["tuple", "tuple", "scalar"]),
